@@ -49,14 +49,20 @@ func (w *c10r7World) read() string {
 		w.f.C10r7HostUpActive("c")-w.hbase, l.Requests["c"], l.Retries["c"])
 }
 
-func c10r7RunCase(mr, mq int, reqs []c10r7Req) string {
+// c10r7Global is the global timeout of the `to` route: far above what the observation of the live attempt takes, also on
+// a loaded machine (the thorough tier runs several harness processes at once)
+const c10r7Global = 350 * time.Millisecond
+
+// c10r7RunCase runs one case; skewed = an observation "while the attempt is live" was taken too late to be trusted (the
+// request was already finished, or — cause `to` — the timer was about to fire): the caller runs the case again.
+func c10r7RunCase(mr, mq int, reqs []c10r7Req) (res string, skewed bool) {
 	gbase := px.C10r7GlobalDownActive()
 	f := px.New(px.Config{
 		Clusters: []px.Cluster{{Name: "c", Hosts: 1, MaxRetries: uint32(mr), MaxRequests: uint32(mq)}, {Name: "e", Hosts: 0}},
 		Routes: []v2.Router{
 			px.Route("/r", "c", px.Timeout(3*time.Second), px.Retry(true, 1, 0)),
 			px.Route("/p", "c", px.Timeout(3*time.Second)),
-			px.Route("/t", "c", px.Timeout(70*time.Millisecond)),
+			px.Route("/t", "c", px.Timeout(c10r7Global)),
 			px.Route("/e", "e", px.Timeout(3*time.Second)),
 			px.Route("/d", "", px.DirectResponse(200, "direct")),
 		},
@@ -87,6 +93,9 @@ func c10r7RunCase(mr, mq int, reqs []c10r7Req) string {
 			}
 			ex.WaitQuiescent()
 			mid = "m" + w.read()
+			if ex.Done() || (q.cause == "to" && ex.Elapsed() > c10r7Global-100*time.Millisecond) {
+				skewed = true
+			}
 			switch q.cause {
 			case "ok":
 				a.Respond(200, nil, nil, nil)
@@ -96,7 +105,7 @@ func c10r7RunCase(mr, mq int, reqs []c10r7Req) string {
 				for k := 0; k < 14; k++ {
 					a.Respond(503, nil, nil, nil)
 					var next *px.Attempt
-					for i := 0; i < 600 && !ex.Done(); i++ { // the retry sleeps 10 ms before the next attempt
+					for i := 0; i < 4000 && !ex.Done(); i++ { // the retry sleeps 10 ms before the next attempt
 						if as := ex.UpstreamAttempts(); len(as) > k+1 {
 							next = ex.WaitAttempt(k + 1)
 							break
@@ -118,7 +127,7 @@ func c10r7RunCase(mr, mq int, reqs []c10r7Req) string {
 				f.ConnClose()
 			}
 		}
-		ex.WaitDone(900 * time.Millisecond)
+		ex.WaitDone(2500 * time.Millisecond)
 		ex.WaitQuiescentFor(12 * time.Millisecond)
 		done := "0"
 		if ex.Done() {
@@ -129,7 +138,7 @@ func c10r7RunCase(mr, mq int, reqs []c10r7Req) string {
 	}
 	time.Sleep(5 * time.Millisecond)
 	out = append(out, "q="+w.read())
-	return strings.Join(out, " ")
+	return strings.Join(out, " "), skewed
 }
 
 // RunFlags emits the `flg` cases: every end cause with every flag set in every phase (packed four requests to a
@@ -159,7 +168,15 @@ func RunFlags(c *hx.Ctx, n int) {
 		}
 		c.Count(fmt.Sprintf("flg.threshold.mr=%d.mq=%d", mr, mq))
 		c.Count(fmt.Sprintf("flg.len=%d", len(reqs)))
-		impl := c10r7RunCase(mr, mq, reqs)
+		impl, skewed := c10r7RunCase(mr, mq, reqs)
+		for try := 0; skewed && try < 3; try++ {
+			c.Count("flg.skew.rerun")
+			impl, skewed = c10r7RunCase(mr, mq, reqs)
+		}
+		if skewed {
+			c.Count("flg.skew.dropped")
+			return
+		}
 		c.Emit("C10", fmt.Sprintf("flg mr=%d,mq=%d %s", mr, mq, strings.Join(toks, ";")), impl)
 	}
 	// systematic part
